@@ -33,7 +33,9 @@ def oracle_inv(ck, dims, m, filt, yl, yh, tol=0.0, named=None):
         Lr = len(filt[2]) if len(filt) == 4 else L
         short = (per_short_inv([h.shape[-2] for h in yh if h is not None] + [yl.shape[-2]], L, m) or
                  per_short_inv([h.shape[-1] for h in yh if h is not None] + [yl.shape[-1]], Lr, m))
-    got = rt.run_impl(case, IMPL)
+    from .. import impl_dwt
+    with impl_dwt.named(named):
+        got = rt.run_impl(case, IMPL)
     desc = '%dD inverse mode=%s J=%d L=%d yl=%s none=%s %s' % (dims, gen.MODE_NAME[m], len(yh), L, tuple(yl.shape),
                                                                [h is None for h in yh], named or 'integer filters')
     replay = {'oracle': 'inv', 'dims': dims, 'm': m, 'filt': [arr_json(f) for f in filt], 'yl': arr_json(yl),
